@@ -75,7 +75,7 @@ MC = {
         dict(C("unknown-column", 1, 2, dict(IntCls=["1"], BigCls=["0"], StrCls=["l1"]), 0, True, 2, 1, wrong=False), WithUnknown=True),
     ],
     "thorough": [
-        C("keyword-texts", 2, 3, KWTEXT, 1, True, 2, 2, types=("BOOLEAN", "VARCHAR", "INT")),
+        C("keyword-texts", 2, 2, KWTEXT, 1, True, 2, 1, types=("BOOLEAN", "VARCHAR")),
         C("one-col-deep", 1, 1, FULL, 1, True, 3, 2),
         C("one-col-life", 1, 1, FULL, 1, True, 2, 4),
         C("two-col", 2, 2, FULL, 2, True, 1, 3),
